@@ -46,6 +46,8 @@ type HistRun struct {
 	Aborted string
 	Times   map[int64]int64
 	Accepted map[string]int
+	Dir      string
+	Died     *ErrDead
 	Rejected map[string]int
 }
 
@@ -149,6 +151,9 @@ func (hr *HistRun) Report(owns ...string) {
 	for _, o := range owns {
 		own[o] = true
 	}
+	if hr.Died != nil && !own["C09"] {
+		hr.C.Inconclusive("history " + hr.Opts.Name + " could not be completed, the node died: " + firstLine(hr.Died.Stderr))
+	}
 	for _, is := range hr.Issues {
 		mine := false
 		for _, p := range strings.Split(is.Prop, ",") {
@@ -213,6 +218,7 @@ func runHistory(c *Ctx, caseIdx int, rng *rand.Rand, o *HistOpts) *HistRun {
 	g := NewGen(rng, seed, o.Gen, o.Params)
 	hr := &HistRun{C: c, Case: caseIdx, Opts: o, G: g, Times: map[int64]int64{}, Accepted: map[string]int{}, Rejected: map[string]int{}}
 	dir := c.Dir(fmt.Sprintf("%s-%d", o.Name, caseIdx))
+	hr.Dir = dir
 	r, err := Spawn(dir, SpawnOpt{Race: o.Race})
 	if err != nil {
 		c.Inconclusive("spawn: " + err.Error())
@@ -253,10 +259,12 @@ func runHistory(c *Ctx, caseIdx int, rng *rand.Rand, o *HistOpts) *HistRun {
 		hr.Txs = append(hr.Txs, txs)
 		res, err := execBlock(r, g.G.ChainID, b, hr.AppHash)
 		if err != nil {
-			c.Err(caseIdx, fmt.Sprintf("block %d", h), err)
 			if de, ok := err.(*ErrDead); ok {
-				hr.issue("C09", "replica-died:"+firstLine(de.Stderr), de.Error())
+				hr.Died = de
+				hr.issue("C09", "replica-died:"+sigLine(de.Stderr), fmt.Sprintf("history %s: the node died while executing block %d\n%s", o.Name, h, de.Error()))
+				return hr
 			}
+			c.Err(caseIdx, fmt.Sprintf("block %d", h), err)
 			return hr
 		}
 		hr.Results = append(hr.Results, res)
